@@ -34,6 +34,8 @@ CONSTANTS Wakers,        \* waking threads
           Mode,          \* "block_on" | "external"
           Driver,        \* "iour" | "poll"
           Eager,         \* schedule-generation variant
+          Overflow,      \* TRUE: a task poll may submit operations into a full submission queue (push_raw: submit, drain the
+                         \*       CQ with poll_entries - which must leave the AwakeFlag alone - and retry)
           WakeAfterPush, \* TRUE: Remote::schedule always wakes the driver after its push landed (repaired); FALSE: not when it
                          \*       already woke it because the queue was full (lost wake-up, fixed finding C03-remote-full-queue)
           ArmInFlush     \* TRUE: flush() also arms the notifier (repaired behaviour of the external mode)
@@ -59,10 +61,11 @@ VARIABLES flag,          \* AwakeFlag
           pcW, wNotified,\* waker program counters; "already woke the driver because the queue was full"
           pcR, needWait, drained, inKernel,
           lastPopped,    \* element returned by the last sync.pop (made hot in the next segment)
-          extNotified    \* external mode: what flush() reported
+          extNotified,   \* external mode: what flush() reported
+          lastOv         \* the last task poll overflowed the submission queue (schedule annotation)
 
 vars == <<flag, efd, armed, sqNotif, needPush, cq, batch, owed, syncq, pending, sched, scheduling, hot, reg,
-          cond, seen, pcW, wNotified, pcR, needWait, drained, inKernel, lastPopped, extNotified>>
+          cond, seen, pcW, wNotified, pcR, needWait, drained, inKernel, lastPopped, extNotified, lastOv>>
 
 TaskWakers == {w \in Wakers : Target[w] # "main"}
 
@@ -75,7 +78,7 @@ Init == /\ flag = IDLE /\ efd = FALSE /\ armed = (Driver = "poll") /\ sqNotif = 
         /\ cond = [w \in Wakers |-> FALSE] /\ seen = [w \in Wakers |-> FALSE]
         /\ pcW = [w \in Wakers |-> "begin"] /\ wNotified = [w \in Wakers |-> FALSE]
         /\ pcR = "pollMain" /\ needWait = FALSE /\ drained = 0 /\ inKernel = FALSE
-        /\ lastPopped = "none" /\ extNotified = FALSE
+        /\ lastPopped = "none" /\ extNotified = FALSE /\ lastOv = FALSE
 
 \* ------------------------------------------------------------------ kernel
 \* an eventfd write: the armed multishot poll produces a completion (at once when Eager)
@@ -86,10 +89,10 @@ WriteEffects == /\ efd' = TRUE
 KPost == /\ ~Eager /\ owed > 0 /\ armed
          /\ owed' = owed - 1 /\ cq' = cq + 1
          /\ UNCHANGED <<flag, efd, armed, sqNotif, needPush, batch, syncq, pending, sched, scheduling, hot, reg, cond, seen,
-                        pcW, wNotified, pcR, needWait, drained, inKernel, lastPopped, extNotified>>
+                        pcW, wNotified, pcR, needWait, drained, inKernel, lastPopped, extNotified, lastOv>>
 
 \* ------------------------------------------------------------------ wakers
-WU == <<armed, sqNotif, needPush, batch, hot, reg, seen, pcR, needWait, drained, inKernel, lastPopped, extNotified>>
+WU == <<armed, sqNotif, needPush, batch, hot, reg, seen, pcR, needWait, drained, inKernel, lastPopped, extNotified, lastOv>>
 
 \* [w.begin] the condition the target is waiting for becomes true, then wake
 WBegin(w) ==
@@ -180,6 +183,7 @@ RPollMain ==
   /\ pcR' = "drainLoad"
   /\ UNCHANGED <<flag, armed, sqNotif, needPush, cq, syncq, pending, sched, hot, needWait, drained, inKernel>> /\ UNCHANGED RU /\ UNCHANGED RX
   /\ UNCHANGED batch
+  /\ UNCHANGED lastOv
 
 \* [exec.drain.load] pending = 0 => skip the queue; else the first pop
 RDrainLoad ==
@@ -193,6 +197,7 @@ RDrainLoad ==
   /\ UNCHANGED <<flag, armed, sqNotif, needPush, cq, pending, sched, seen, needWait, inKernel, extNotified>> /\ UNCHANGED RU
   /\ UNCHANGED reg
   /\ UNCHANGED batch
+  /\ UNCHANGED lastOv
 
 \* [exec.drain.popped] make_hot(id) of the popped element (kept in `lastPopped`), then the next pop
 RPopped ==
@@ -204,6 +209,7 @@ RPopped ==
   /\ UNCHANGED <<flag, armed, sqNotif, needPush, cq, pending, sched, seen, needWait, inKernel, extNotified>> /\ UNCHANGED RU
   /\ UNCHANGED reg
   /\ UNCHANGED batch
+  /\ UNCHANGED lastOv
 
 \* [exec.drain.sub]
 RDrainSub ==
@@ -213,6 +219,7 @@ RDrainSub ==
   /\ UNCHANGED <<flag, armed, sqNotif, needPush, cq, syncq, sched, hot, seen, needWait, inKernel, lastPopped, extNotified>> /\ UNCHANGED RU
   /\ UNCHANGED reg
   /\ UNCHANGED batch
+  /\ UNCHANGED lastOv
 
 \* [exec.state.unschedule] Task::run: clear SCHEDULED, poll the task's future
 RRunTask ==
@@ -222,7 +229,10 @@ RRunTask ==
        /\ seen' = [w \in Wakers |-> IF Target[w] = t THEN cond[w] ELSE seen[w]]
        /\ reg' = reg \cup {t}
   /\ hot' = Tail(hot)
-  /\ pcR' = IF Tail(hot) # <<>> THEN "runTask" ELSE (IF Mode = "block_on" THEN "reset" ELSE "flush")
+  /\ \E ov \in (IF Overflow /\ Driver = "iour" THEN BOOLEAN ELSE {FALSE}) :
+       /\ lastOv' = ov
+       /\ pcR' = IF ov THEN "ovEnter"
+                 ELSE IF Tail(hot) # <<>> THEN "runTask" ELSE (IF Mode = "block_on" THEN "reset" ELSE "flush")
   /\ UNCHANGED <<flag, armed, sqNotif, needPush, cq, syncq, pending, needWait, drained, inKernel, lastPopped, extNotified>> /\ UNCHANGED RU
   /\ UNCHANGED batch
 
@@ -234,6 +244,7 @@ RReset ==
   /\ UNCHANGED <<armed, sqNotif, needPush, cq, syncq, pending, sched, hot, seen, drained, inKernel, lastPopped, extNotified>> /\ UNCHANGED RU
   /\ UNCHANGED reg
   /\ UNCHANGED batch
+  /\ UNCHANGED lastOv
 
 \* [iour.arm_notifier]
 RArm ==
@@ -242,6 +253,7 @@ RArm ==
   /\ UNCHANGED <<flag, armed, cq, syncq, pending, sched, hot, seen, needWait, drained, inKernel, lastPopped, extNotified>> /\ UNCHANGED RU
   /\ UNCHANGED reg
   /\ UNCHANGED batch
+  /\ UNCHANGED lastOv
 
 \* [drv.wait.enter] io_uring_enter: submit the SQ; wait iff need_wait (block_on: and the timeout is not zero)
 SubmitEffects ==
@@ -257,6 +269,7 @@ REnter ==
   /\ UNCHANGED <<flag, efd, needPush, syncq, pending, sched, hot, seen, needWait, drained, lastPopped, extNotified, cond, pcW, wNotified, scheduling>>
   /\ UNCHANGED reg
   /\ UNCHANGED batch
+  /\ UNCHANGED lastOv
 
 \* [drv.wait.leave] returns at once when it did not have to wait, else when a completion is there
 RLeave ==
@@ -269,6 +282,7 @@ RLeave ==
   /\ UNCHANGED <<owed, cond, pcW, wNotified, scheduling>>
   /\ UNCHANGED reg
   /\ UNCHANGED batch
+  /\ UNCHANGED lastOv
 
 \* [awake.set] first
 RAwake1 ==
@@ -280,6 +294,7 @@ RAwake1 ==
             ELSE "awake2"
   /\ UNCHANGED <<armed, sqNotif, needPush, cq, syncq, pending, sched, hot, seen, needWait, drained, inKernel, lastPopped, extNotified>> /\ UNCHANGED RU
   /\ UNCHANGED reg
+  /\ UNCHANGED lastOv
 
 \* [notify.clear] poll_entries: NOTIFY completion(s): read the eventfd
 RClear ==
@@ -289,6 +304,7 @@ RClear ==
   /\ UNCHANGED <<flag, armed, sqNotif, needPush, owed, syncq, pending, sched, hot, seen, needWait, drained, inKernel, lastPopped, extNotified,
                  cond, pcW, wNotified, scheduling>>
   /\ UNCHANGED reg
+  /\ UNCHANGED lastOv
 
 \* [awake.set] second
 RAwake2 ==
@@ -298,6 +314,7 @@ RAwake2 ==
   /\ UNCHANGED <<armed, sqNotif, needPush, cq, syncq, pending, sched, hot, seen, needWait, drained, inKernel, lastPopped, extNotified>> /\ UNCHANGED RU
   /\ UNCHANGED reg
   /\ UNCHANGED batch
+  /\ UNCHANGED lastOv
 
 \* ---- external event loop -------------------------------------------------------------------
 \* [drv.flush] Proactor::flush: submit, then reset; the loop then waits on the driver's descriptor
@@ -309,6 +326,7 @@ RFlushArm ==
   /\ sqNotif' = TRUE /\ needPush' = FALSE /\ pcR' = "flushEnter"
   /\ UNCHANGED <<flag, armed, cq, syncq, pending, sched, hot, seen, needWait, drained, inKernel, lastPopped, extNotified, reg, batch>>
   /\ UNCHANGED RU
+  /\ UNCHANGED lastOv
 
 RFlush ==
   /\ Driver = "iour"
@@ -318,12 +336,14 @@ RFlush ==
   /\ UNCHANGED <<flag, efd, needPush, syncq, pending, sched, hot, seen, needWait, drained, inKernel, lastPopped, extNotified,
                  cond, pcW, wNotified, scheduling, reg>>
   /\ UNCHANGED batch
+  /\ UNCHANGED lastOv
 
 RFlushLeave ==
   /\ pcR = "flushLeave"
   /\ pcR' = "flushReset"
   /\ UNCHANGED <<flag, armed, sqNotif, needPush, cq, syncq, pending, sched, hot, seen, needWait, drained, inKernel, lastPopped, extNotified, reg, batch>>
   /\ UNCHANGED RU
+  /\ UNCHANGED lastOv
 
 \* [awake.reset] inside flush
 RFlushReset ==
@@ -332,6 +352,7 @@ RFlushReset ==
   /\ pcR' = "extWait"
   /\ UNCHANGED <<armed, sqNotif, needPush, cq, syncq, pending, sched, hot, seen, needWait, drained, inKernel, lastPopped, reg>> /\ UNCHANGED RU
   /\ UNCHANGED batch
+  /\ UNCHANGED lastOv
 
 \* the external loop: poll(2) on the ring fd (readable iff the CQ is non-empty) unless flush said "notified"
 RExtWait ==
@@ -342,9 +363,35 @@ RExtWait ==
   /\ UNCHANGED RU
   /\ UNCHANGED reg
   /\ UNCHANGED batch
+  /\ UNCHANGED lastOv
+
+\* ---- push_raw with a full submission queue, inside a task poll ------------------------------------
+\* [drv.wait.enter] submit_auto(0): submit the queue (no wait)
+AfterOv == IF hot # <<>> THEN "runTask" ELSE (IF Mode = "block_on" THEN "reset" ELSE "flush")
+ROvEnter ==
+  /\ pcR = "ovEnter"
+  /\ SubmitEffects
+  /\ pcR' = "ovLeave"
+  /\ UNCHANGED <<flag, efd, needPush, syncq, pending, sched, hot, seen, needWait, drained, inKernel, lastPopped, extNotified,
+                 cond, pcW, wNotified, scheduling, reg, batch, lastOv>>
+\* [drv.wait.leave] then poll_entries over a snapshot of the completion queue; the AwakeFlag is NOT touched
+ROvLeave ==
+  /\ pcR = "ovLeave"
+  /\ batch' = cq
+  /\ pcR' = IF cq > 0 THEN "ovClear" ELSE AfterOv
+  /\ UNCHANGED <<flag, armed, sqNotif, needPush, cq, syncq, pending, sched, hot, seen, needWait, drained, inKernel, lastPopped,
+                 extNotified, reg, lastOv>>
+  /\ UNCHANGED RU
+\* [notify.clear]
+ROvClear ==
+  /\ pcR = "ovClear"
+  /\ efd' = FALSE /\ cq' = cq - 1 /\ batch' = batch - 1
+  /\ pcR' = IF batch > 1 THEN "ovClear" ELSE AfterOv
+  /\ UNCHANGED <<flag, armed, sqNotif, needPush, owed, syncq, pending, sched, hot, seen, needWait, drained, inKernel, lastPopped,
+                 extNotified, cond, pcW, wNotified, scheduling, reg, lastOv>>
 
 RStep == \/ RPollMain \/ RDrainLoad \/ RPopped \/ RDrainSub \/ RRunTask \/ RReset \/ RArm \/ REnter \/ RLeave
-         \/ RAwake1 \/ RClear \/ RAwake2 \/ RFlushArm \/ RFlush \/ RFlushLeave \/ RFlushReset \/ RExtWait
+         \/ RAwake1 \/ RClear \/ RAwake2 \/ ROvEnter \/ ROvLeave \/ ROvClear \/ RFlushArm \/ RFlush \/ RFlushLeave \/ RFlushReset \/ RExtWait
 
 Next == RStep \/ KPost \/ \E w \in Wakers : WStep(w)
 
